@@ -63,6 +63,8 @@ def _fp(e):
         return None
     if k == z3.Z3_OP_TO_REAL:
         return ch[0]
+    if k == z3.Z3_OP_UNINTERPRETED and e.decl().name() == "abs":
+        return abs(ch[0])
     if k == z3.Z3_OP_UNINTERPRETED:
         # limit the size of the rationals fed to the hash
         return _h("f", e.decl().name(), *[(c.numerator % (1 << 61), c.denominator % (1 << 61)) for c in ch])
